@@ -10,8 +10,8 @@ Context (RA : RootArith).
 Notation K := (T (KK RA)).
 
 (* ---------- laguer: at most MAXIT - 1 passes through the loop ---------- *)
-Lemma laguer_loop_iters a m fin0 fuel : forall iter x l,
-  laguer_loop RA a m fin0 fuel iter x = Ok l -> 1 <= iter -> liters l <= iter + fuel - 1.
+Lemma laguer_loop_iters a m x0 fin0 fuel : forall iter x l,
+  laguer_loop RA a m x0 fin0 fuel iter x = Ok l -> 1 <= iter -> liters l <= iter + fuel - 1.
 Proof.
   induction fuel as [|fuel IH]; intros iter x l E Hi; cbn [laguer_loop] in E.
   - injection E as <-. cbn [liters]. lia.
@@ -27,8 +27,8 @@ Proof.
 Qed.
 
 (* an Exhausted exit has used every pass *)
-Lemma laguer_loop_exhausted a m fin0 fuel : forall iter x l,
-  laguer_loop RA a m fin0 fuel iter x = Ok l -> 1 <= iter -> lwhy l = Exhausted -> liters l = iter + fuel - 1.
+Lemma laguer_loop_exhausted a m x0 fin0 fuel : forall iter x l,
+  laguer_loop RA a m x0 fin0 fuel iter x = Ok l -> 1 <= iter -> lwhy l = Exhausted -> liters l = iter + fuel - 1.
 Proof.
   induction fuel as [|fuel IH]; intros iter x l E Hi Hw; cbn [laguer_loop] in E.
   - injection E as <-. cbn [liters]. lia.
